@@ -379,26 +379,27 @@ func leftmost(e *Expr) *Expr {
 	}
 }
 
-// guardLeadingInterp: known finding D16 - a block whose first token is a
-// $"…" literal is measured one column too far right. The literal gets
-// redundant parentheses when it would be the first token of a block.
+// guardLeadingInterp: known finding D16 - a $"…" token is measured one column
+// too far to the right, so a statement that starts with one is taken to be
+// indented one column deeper than it is (it falls out of a block it starts, or
+// into a preceding block that is indented by exactly one column more). Such a
+// literal gets redundant parentheses whenever it would start a statement.
 func (g *Gen) guardLeadingInterp(b *Block) {
-	var first *Expr
-	if len(b.Stmts) > 0 {
-		if b.Stmts[0].K != "expr" {
+	fix := func(e *Expr) {
+		if e == nil {
 			return
 		}
-		first = b.Stmts[0].E
-	} else {
-		first = b.Final
+		if l := leftmost(e); l.K == "interp" && l.Extra == 0 {
+			l.Extra = 1
+			g.Steered["no statement starts with a $ literal (known finding D16)"]++
+		}
 	}
-	if first == nil {
-		return
+	for _, s := range b.Stmts {
+		if s.K == "expr" {
+			fix(s.E)
+		}
 	}
-	if l := leftmost(first); l.K == "interp" && l.Extra == 0 {
-		l.Extra = 1
-		g.Steered["block does not start with a $ literal (known finding D16)"]++
-	}
+	fix(b.Final)
 }
 
 // useIt builds a unit statement that uses variable v.
@@ -548,7 +549,10 @@ func (g *Gen) genRecursive() *TopItem {
 		base := g.expr(sc, TInt, 1)
 		step := g.expr(sc, TInt, 1)
 		recCall := Call(name, TInt, Bin("-", TInt, Var(n, TInt), Int(1)))
-		body := &Expr{K: "if", T: TInt, Args: []*Expr{Bin("<=", TBool, Var(n, TInt), Int(0))},
+		// the guard also bounds the depth: callers pass arbitrary integers
+		guard := Bin("||", TBool, Bin("<=", TBool, Var(n, TInt), Int(0)), Bin(">", TBool, Var(n, TInt), Int(12)))
+		guard.Args[0].Extra, guard.Args[1].Extra = 1, 1
+		body := &Expr{K: "if", T: TInt, Args: []*Expr{guard},
 			Then: Blk(base), Else: Blk(Bin("+", TInt, step, recCall))}
 		f = &FuncDecl{Name: name, Params: []Param{{n, TInt, true}}, Ret: TInt, RetAnnot: g.chance(2, 3, "recRetAnnot") || g.P.Tinyfo, Body: Blk(body)}
 	} else {
